@@ -19,6 +19,7 @@ d = {"Q": s.Q.tolist(), "q": s.q.tolist(), "A": s.A.tolist(), "e": s.e.tolist(),
      "y0": None if p.y0 is None else np.asarray(p.y0, dtype=float).tolist(),
      "sp_a": s.sp_a.tolist() if s.sp_a.size else None, "sp_W": s.sp_W.tolist() if s.sp_a.size else None,
      "B": None if s.B is None else [None if b is None else np.asarray(b).tolist() for b in s.B],
+     "xs": (np.asarray(s.meta["xs"], dtype=float).tolist() if s.meta.get("xs") is not None else None),
      "family": s.meta.get("family"), "note": sys.argv[3] if len(sys.argv) > 3 else ""}
 json.dump(d, open(os.path.join(V, sys.argv[2]), "w"))
 cfg = dict(case["cfg"])
